@@ -313,8 +313,8 @@ Proof.
     + apply Nat.ltb_lt in Ea.
       destruct (cutm i0 a b) as [[M' Qi]|] eqn:E; [|discriminate]. injection H as <- <-.
       destruct (cutm_bound _ _ _ _ _ E Hab) as (Hb1 & Hb2 & Hb3).
-      set (p1 := (fst p, S (snd p))).
-      destruct (IHi a b M' Qi p1 E Hab) as (E1 & E2 & H1 & H2 & H3 & H4). cbn [fst] in *.
+      destruct (IHi a b M' Qi (fst p, S (snd p)) E Hab) as (E1 & E2 & H1 & H2 & H3 & H4). cbn [fst] in *.
+      set (p1 := (fst p, S (snd p))) in *.
       set (ii := S (fst p + a)) in *. set (w := S (nbreaks M')) in *.
       set (q := adv i0 p1) in *.
       assert (Hq : fst q = fst p + nbreaks i0) by (unfold q; rewrite adv_fst; reflexivity).
@@ -325,13 +325,13 @@ Proof.
       rewrite Hfq. cbn [fst snd].
       destruct (ents_down r ii w (fst q - w) (S (snd q)) ltac:(unfold ii, w; lia)) as [D1 D2].
       replace (fst q - w + w) with (fst q) in D1, D2 by (unfold w; lia).
-      split; [rewrite <- !app_assoc; cbn [app]; rewrite <- !app_assoc; reflexivity|].
+      split; [repeat rewrite <- app_assoc; cbn [app]; repeat rewrite <- app_assoc; reflexivity|].
       split; [change (EP (Some q) :: E1) with ([EP (Some q)] ++ E1); rewrite nEB_app, H2; reflexivity|].
       split; [|exact D2].
       cbn [app map emap]. rewrite Hfq. f_equal.
       rewrite !map_app. cbn [map emap]. rewrite !map_app. cbn [map emap].
       rewrite (fcut_before ii w p) by (unfold ii; lia).
-      rewrite <- D1. rewrite <- !app_assoc. cbn [app]. rewrite <- !app_assoc. reflexivity.
+      rewrite <- D1. repeat rewrite <- app_assoc. cbn [app]. repeat rewrite <- app_assoc. reflexivity.
     + apply Nat.ltb_ge in Ea.
       destruct (cutm r (a - nbreaks i0) (b - nbreaks i0)) as [[M' Qr]|] eqn:E; [|discriminate]. injection H as <- <-.
       set (p1 := (fst p, S (snd p))). set (q := adv i0 p1).
@@ -342,17 +342,17 @@ Proof.
       set (ii := S (fst p + a)) in *. set (w := S (nbreaks M')) in *.
       exists (EP (Some q) :: ents i0 p1 ++ EP (Some p) :: E1), E2.
       cbn [ents adv]. cbn zeta. fold p1. fold q. rewrite H1, H3, H4.
-      split; [cbn [app]; rewrite <- !app_assoc; reflexivity|].
+      split; [cbn [app]; repeat rewrite <- app_assoc; reflexivity|].
       split.
       { change (EP (Some q) :: ents i0 p1 ++ EP (Some p) :: E1)
           with ([EP (Some q)] ++ ents i0 p1 ++ [EP (Some p)] ++ E1).
         rewrite !nEB_app, nEB_ents, H2. cbn. lia. }
       split; [|reflexivity].
       cbn [app map emap]. rewrite (fcut_before ii w q) by (unfold ii; lia). f_equal.
-      rewrite <- !app_assoc. rewrite !map_app. cbn [app map emap].
+      repeat rewrite <- app_assoc. rewrite !map_app. cbn [app map emap].
       rewrite (fcut_before ii w p) by (unfold ii; lia).
       rewrite (emap_id_ext (fcut ii w) (ents i0 p1)).
-      * rewrite !map_app. reflexivity.
+      * reflexivity.
       * intros v Hv. apply vals_ents in Hv. unfold p1 in Hv. cbn [fst] in Hv.
         apply fcut_before. unfold ii. lia.
 Qed.
